@@ -2,7 +2,7 @@ From Gv Require Import lib.Bytes lib.Json lib.ExtractAnchor C02.Model C02.Spec C
 Require Import ExtrOcamlBasic.
 Extraction Language OCaml.
 Extraction "model.ml" extraction_anchor exec init_state run render_initial render_batch frame_bytes marshal
-  stream_ok_b defer_plan_wf descs_wf shape_ok scope_ok paths_ok group_ids_nodup root_ok
+  stream_ok_b flushes_ok_b defer_plan_wf descs_wf shape_ok scope_ok paths_ok group_ids_nodup root_ok
   erase complete_root jequiv_b merge_at apply_items client_path json_eqb
   clean_b strict_clean proj keep_all keep_layer c_stream client_result find_desc
   defer_path spec_path desc_path_ok_b static_gives_up candidate chain_typed anchor_ok_b collector_path collector_path_v0 spec_collector_path desc_paths_ok_b prefix_b.
